@@ -71,6 +71,22 @@ func VerifC09Ancestors() {
 	vReach("end")
 }
 
+// VerifC09Cross: the ancestors of one voxel at cross-ordered zoom pairs — (h-a, v) and (h, v-b) —
+// both contain the voxel, hence overlap each other and the voxel, in both argument orders.
+func VerifC09Cross() {
+	h, v := vCase("h"), vCase("v")
+	a, b := vCase("a"), vCase("b")
+	x, y, f := vNondetInt64("x"), vNondetInt64("y"), vNondetInt64("f")
+	vAssume(0 <= x && x < int64(1)<<uint(h) && 0 <= y && y < int64(1)<<uint(h))
+	vAssume(-(int64(1)<<uint(v)) <= f && f < int64(1)<<uint(v))
+	p := vID5(h-a, x>>uint(a), y>>uint(a), v, f)
+	q := vID5(h, x, y, v-b, f>>uint(b))
+	o1, e1 := CheckExtendedSpatialIdsOverlap(p, q)
+	o2, e2 := CheckExtendedSpatialIdsOverlap(q, p)
+	vAssert(e1 == nil && e2 == nil && o1 && o2, "voxels of one point at cross-ordered zoom pairs (coarser horizontally / coarser vertically) overlap")
+	vReach("end")
+}
+
 // VerifC09TreeNested: the single-zoom forms agree: a spatial ID overlaps each of its children (radix tree).
 func VerifC09TreeNested() {
 	z := vCase("z")
